@@ -112,7 +112,13 @@ fn decode(bytes: &[u8]) -> Case {
             programs.push(template(&mut c));
         } else {
             let cfg = GenCfg { budget: 60, reentry: 3, closures: 4, tables: 5, expr_stmt: 0, wide_globals: false, abort: false, ..GenCfg::default() };
-            programs.push(("generated".to_string(), gen_program(&mut c, &cfg)));
+            let p = gen_program(&mut c, &cfg);
+            // only programs inside the defined semantics (no self-referencing tables ...)
+            if matches!(crate::refsem::run_reference(&p, 40_000).outcome, Err(crate::refsem::ErrKind::Undefined(_))) {
+                programs.push(template(&mut c));
+            } else {
+                programs.push(("generated".to_string(), p));
+            }
         }
     }
     let limit0 = *c.pick(&LIMITS);
